@@ -45,7 +45,7 @@ def is_equal_constant_merge(exc, q, tables):
 
 
 def run_case(ctx, q, tables, route, label, mon):
-    mt = tables[q.table]
+    mt = tables[q.table or 't']
     conn = engine.connection(tables.values())
     try:
         stmt = ir.to_text(q) if route == 'text' else ir.to_ast(q)
@@ -90,7 +90,7 @@ def run_case(ctx, q, tables, route, label, mon):
             ctx.count('excluded.model_raises_only')
         return
     # how many groups did the selection form (model side)
-    q0 = ir.Query(targets=q.targets, table=q.table, where=q.where, group_by=q.group_by)
+    q0 = ir.Query(targets=q.targets, table=q.table, subquery=q.subquery, where=q.where, group_by=q.group_by)
     try:
         _, _, all_groups = model.run_query(q0, tables)
     except Exception:  # noqa: BLE001
@@ -137,6 +137,8 @@ def run_case(ctx, q, tables, route, label, mon):
 
 def additivity(ctx, q, tables, conn, case):
     """Group-wise count(*), count(x), sum(x) add up to the ungrouped totals of the same WHERE."""
+    if q.subquery is not None:
+        return
     if not q.group_by and not any(not t.expr.has_agg() for t in q.targets):
         return
     probes = [ir.Target(ir.agg('count', [], T_INT), 'n'),
@@ -228,10 +230,56 @@ def run(ctx):
     ledger_part(ctx, mon)
 
 
+def nested_aggregate(rng, qg):
+    """An aggregate query whose table is itself an aggregate sub-query, or that filters with IN (aggregate sub-query); inner and
+    outer use the same aggregate functions at different target positions."""
+    key_t, key_c = rng.choice([(T_INT, 'i'), (T_STR, 's'), (T_BOOL, 'b'), (T_DATE, 'dt')])
+    inner_aggs = [ir.Target(ir.agg('count', [], T_INT), 'n'), ir.Target(ir.agg('sum', [ir.col('j', T_INT)], T_INT), 'sj'),
+                  ir.Target(ir.agg('max', [ir.col('d', T_DEC)], T_DEC), 'md'), ir.Target(ir.agg('min', [ir.col('j', T_INT)], T_INT), 'mj')]
+    rng.shuffle(inner_aggs)
+    inner_aggs = inner_aggs[:rng.randint(1, 4)]
+    if rng.random() < 0.55:
+        inner = ir.Query(targets=[ir.Target(ir.col(key_c, key_t), 'g')] + inner_aggs, table='t', group_by=[ir.Key('index', 1)],
+                         having=ir.bin_('ge', ir.agg('count', [], T_INT), ir.lit(rng.choice([0, 1, 2]), T_INT), T_BOOL) if rng.random() < 0.5 else None)
+        num = [t for t in inner_aggs if t.expr.type == T_INT]
+        outer_t = [ir.Target(ir.agg('count', [], T_INT), 'c')]
+        if num:
+            a = rng.choice(num)
+            outer_t.append(ir.Target(ir.agg('sum', [ir.col(a.alias, T_INT)], T_INT), 's'))
+            outer_t.append(ir.Target(ir.agg(rng.choice(['min', 'max']), [ir.col(a.alias, T_INT)], T_INT), 'm'))
+        rng.shuffle(outer_t)
+        q = ir.Query(targets=outer_t, subquery=inner)
+        if rng.random() < 0.5:
+            q.targets = [ir.Target(ir.col('g', key_t), 'gg')] + q.targets
+            q.group_by = [ir.Key('name', 'gg')]
+        return q
+    # IN (aggregate sub-query) in WHERE of an aggregate query over the same table
+    sub = ir.Query(targets=[ir.Target(ir.col(key_c, key_t))], table='t', group_by=[ir.Key('expr', ir.col(key_c, key_t))],
+                   having=rng.choice([ir.bin_('gt', ir.agg('count', [], T_INT), ir.lit(rng.choice([0, 1, 2]), T_INT), T_BOOL),
+                                      ir.bin_('gt', ir.agg('sum', [ir.col('j', T_INT)], T_INT), ir.lit(rng.choice([0, 3]), T_INT), T_BOOL)]))
+    outer_t = [ir.Target(ir.col(key_c, key_t), 'g'), ir.Target(ir.agg('min', [ir.col('j', T_INT)], T_INT), 'mn'),
+               ir.Target(ir.agg('sum', [ir.col('j', T_INT)], T_INT), 'sj'), ir.Target(ir.agg('count', [], T_INT), 'n')]
+    tail = outer_t[1:]
+    rng.shuffle(tail)
+    q = ir.Query(targets=[outer_t[0]] + tail[:rng.randint(1, 3)], table='t', where=ir.bin_('in', ir.col(key_c, key_t), ir.subq(sub), T_BOOL),
+                 group_by=[ir.Key('name', 'g')])
+    if rng.random() < 0.4:
+        q.having = ir.bin_('gt', ir.agg('sum', [ir.col('j', T_INT)], T_INT), ir.lit(0, T_INT), T_BOOL)
+    return q
+
+
 def random_case(ctx, n, mon):
     rng = ctx.rng('random', n)
-    mt = gen.gen_table(rng, 't', max_rows=ctx.pick(12, 40))
+    mt = gen.gen_table(rng, 't', max_rows=ctx.pick(12, 40), ties=rng.random() < 0.3)
     qg = gen.QueryGen(rng, max_depth=ctx.pick(3, 4))
+    if rng.random() < 0.2:
+        q = nested_aggregate(rng, qg)
+        q_table = 't'
+        ctx.count('random.nested_aggregate')
+        route = 'text' if rng.random() < 0.12 else 'ast'
+        run_case(ctx, q, {'t': mt}, route, f'random/{n}', mon)
+        ctx.count('random.executed')
+        return
     q = qg.aggregate()
     route = 'text' if rng.random() < 0.12 else 'ast'
     run_case(ctx, q, {'t': mt}, route, f'random/{n}', mon)
